@@ -1,6 +1,6 @@
 """C08 configuration for ./check (see checks/propcfg.py for the keys)."""
 CFG = {
-    "modules": ["VaxisModel.Props.C08", "VaxisModel.Props.C08Fine", "VaxisModel.Props.C08Pools", "VaxisModel.Props.C08Live", "VaxisModel.Witness.F29"],
+    "modules": ["VaxisModel.Props.C08", "VaxisModel.Props.C08Fine", "VaxisModel.Props.C08Pools", "VaxisModel.Props.C08Live", "VaxisModel.Props.C08Spec", "VaxisModel.Witness.F29"],
     "extractors": ["C02"],
     "drivers": ["C08"],
     "trivial_prefix": ("Z |",),
@@ -24,6 +24,8 @@ CFG = {
                   "Bounded channel (capacity regenerated) with an explicit consumer: FIFO, a blocked emit is enabled by one receive, no deadlock, a fair schedule delivers every finite input "
                   "and ends closed within an explicit step bound; a consumer that stops receiving blocks the parser for ever (witness). "
                   "Conversely every atomic run is a schedule of single statements (same outputs at quiescent points). "
+                  "Composition with C02 (Props/C08Spec): for every schedule the delivered items are exactly what the reference machine of Spec/VT500.lean prescribes for the same labels - runes through the VT500 machine "
+                  "(F102/F102c on), the Escape key = Spec escKey at every up-to-date timer firing and nowhere else, the open control string at end of input, one EOF; for segment scripts this is Spec.runWithEscKeysD, the driver's oracle. "
                   "Real time is abstracted to the order of timer and read events.",
     "level_note": "LTS tied to the code by the regenerated table/timer shape and by scripted-reader correspondence (incl. hook-forced callback delays in a child process). "
                   "Fixed in /repo: F108 (ignoreST after Escape key inside a string), F29 (unguarded timer callback: late Escape, torn sequence, send on closed channel).",
